@@ -18,6 +18,7 @@ B = z3.BoolSort()
 
 RLIMIT = int(os.environ.get('SX_RLIMIT', '40000000'))      # deterministic resource limit per query
 TIMEOUT_MS = int(os.environ.get('SX_TIMEOUT_MS', '60000'))  # hard wall clock cap per query
+_SLOWQ = float(os.environ.get('SX_SLOWQ', '0') or 0)
 
 
 class PathAbort(BaseException):
@@ -254,6 +255,10 @@ class Ctx:
         k = self.names.get(name, 0)
         self.names[name] = k + 1
         n = name if k == 0 else '%s#%d' % (name, k)
+        if sort == 'F64':
+            c = z3.FP(n, F64)
+            self.vars[n] = c
+            return FV(c)
         c = z3.Real(n) if sort == 'Real' else z3.Int(n)
         self.vars[n] = c
         return SV(c)
@@ -278,6 +283,10 @@ class Ctx:
         r = s.check()
         self.checks += 1
         self.solver_time += time.time() - t
+        if _SLOWQ and time.time() - t > _SLOWQ:
+            import sys
+            print('SLOWQ %.1fs %s %s' % (time.time() - t, r, [str(e)[:200] for e in (extra or fs[-2:])]), file=sys.stderr,
+                  flush=True)
         self.last = s
         return r
 
@@ -487,6 +496,40 @@ class Ctx:
             v += 1
             if hi is None and v - lo > 4096:
                 raise Unsupported('concretisation does not terminate for %s' % e)
+
+    def choose_value(self, t):
+        """n-ary decision on the value of the integral, finite double t: the feasible values are enumerated with the solver
+        (block the values found so far until unsat), sorted, and explored in ascending order.  The set is a function of the
+        path condition only, so re-executions of a prefix see the same decisions."""
+        i = len(self.trace)
+        if i < len(self.prefix):
+            k = self.prefix[i]
+        else:
+            vals = []
+            while True:
+                r = self.check(*[z3.Not(z3.fpEQ(t, z3.FPVal(float(v), F64))) for v in vals], exact=True)
+                if r == z3.unsat:
+                    break
+                if r != z3.sat:
+                    raise Unsupported('solver returned unknown while enumerating the values of %s' % t)
+                v = model_value(self.last.model(), t)
+                if v != v or v in (float('inf'), float('-inf')) or v != int(v) or abs(v) >= 2 ** 53:
+                    raise Unsupported('non-integral value %r for %s' % (v, t))
+                vals.append(int(v))
+                if len(vals) > 4096:
+                    raise Unsupported('more than 4096 feasible values for %s' % t)
+            if not vals:
+                raise PathAbort()
+            vals.sort()
+            k = vals[0]
+            for v in reversed(vals[1:]):
+                self.pending.append(self.trace + [v])
+        self.trace.append(k)
+        cond = z3.fpEQ(t, z3.FPVal(float(k), F64))
+        self.pc.append(cond)
+        self.pc_lin.append(cond)
+        self._sat_by_model(cond)
+        return k
 
     def choose(self, name, values):
         """n-ary decision point on a fresh, otherwise unconstrained index variable: every value is
@@ -790,6 +833,109 @@ class SV:
         return self._fn('log')
 
 
+# ------------------------------------------------------------------------------------------------
+# IEEE-754 double as a symbolic value (used where rounding is the subject: Simulator split sizes)
+
+F64 = z3.Float64()
+_RNE = z3.RNE()
+
+
+def _fp(x):
+    if isinstance(x, FV):
+        return x.e
+    if isinstance(x, (bool, np.bool_)):
+        return z3.FPVal(float(int(x)), F64)
+    if isinstance(x, (int, np.integer)):
+        if abs(int(x)) >= 2 ** 53:
+            raise Unsupported('integer too large for an exact double')
+        return z3.FPVal(float(int(x)), F64)
+    if isinstance(x, (float, np.floating)):
+        return z3.FPVal(float(x), F64)
+    return None
+
+
+def _fbin(fn, rev=False, boolean=False):
+    def op(self, o):
+        b = _fp(o)
+        if b is None:
+            return NotImplemented
+        x, y = (b, self.e) if rev else (self.e, b)
+        return SB(fn(x, y)) if boolean else FV(fn(x, y))
+    return op
+
+
+class FV:
+    """float64 scalar with IEEE semantics (round-to-nearest-even), e.g. a test_size; int() truncates like Python"""
+    __slots__ = ('e',)
+
+    def __init__(self, e):
+        self.e = e
+
+    __add__ = _fbin(lambda a, b: z3.fpAdd(_RNE, a, b))
+    __radd__ = _fbin(lambda a, b: z3.fpAdd(_RNE, a, b), rev=True)
+    __sub__ = _fbin(lambda a, b: z3.fpSub(_RNE, a, b))
+    __rsub__ = _fbin(lambda a, b: z3.fpSub(_RNE, a, b), rev=True)
+    __mul__ = _fbin(lambda a, b: z3.fpMul(_RNE, a, b))
+    __rmul__ = _fbin(lambda a, b: z3.fpMul(_RNE, a, b), rev=True)
+    __truediv__ = _fbin(lambda a, b: z3.fpDiv(_RNE, a, b))
+    __rtruediv__ = _fbin(lambda a, b: z3.fpDiv(_RNE, a, b), rev=True)
+    __lt__ = _fbin(z3.fpLT, boolean=True)
+    __le__ = _fbin(z3.fpLEQ, boolean=True)
+    __gt__ = _fbin(z3.fpGT, boolean=True)
+    __ge__ = _fbin(z3.fpGEQ, boolean=True)
+    __eq__ = _fbin(z3.fpEQ, boolean=True)
+
+    def __ne__(self, o):
+        r = self.__eq__(o)
+        return r if r is NotImplemented else SB(z3.Not(r.e))
+
+    def __neg__(self):
+        return FV(z3.fpNeg(self.e))
+
+    def _to_int(self, mode):
+        """the integer fpRoundToIntegral(mode, self): one n-ary decision over its feasible values (see Ctx.choose_value)"""
+        t = z3.fpRoundToIntegral(mode, self.e)
+        c = cur()
+        c.concretized += 1
+        if c.branch(z3.Or(z3.fpIsNaN(t), z3.fpIsInf(t))):
+            raise ValueError('cannot convert float NaN / infinity to integer')
+        return c.choose_value(t)
+
+    def __int__(self):
+        return self._to_int(z3.RTZ())
+
+    __index__ = None
+
+    def ceil(self):
+        return self._to_int(z3.RTP())
+
+    def floor(self):
+        return self._to_int(z3.RTN())
+
+    def __hash__(self):
+        raise Unsupported('hash of a symbolic double')
+
+    def __float__(self):
+        raise Unsupported('float() of a symbolic double (would silently concretise)')
+
+    def __deepcopy__(self, memo):
+        return self
+
+    def __copy__(self):
+        return self
+
+    def __reduce__(self):
+        REG.append(self.e)
+        return (_unpickle_fv, (len(REG) - 1,))
+
+    def __repr__(self):
+        return 'FV(%s)' % self.e
+
+
+def _unpickle_fv(i):
+    return FV(REG[i])
+
+
 REG = []   # registry used to pickle / deepcopy objects that hold z3 terms (same process only)
 
 
@@ -864,6 +1010,13 @@ def model_value(m, e):
         return True
     if z3.is_false(v):
         return False
+    if z3.is_fp_value(v):
+        if v.isNaN():
+            return float('nan')
+        if v.isInf():
+            return float('-inf') if v.isNegative() else float('inf')
+        r = z3.simplify(z3.fpToReal(v))
+        return r.numerator_as_long() / r.denominator_as_long()      # exact: the value is a double
     if z3.is_algebraic_value(v):
         a = v.approx(20)
         return a.numerator_as_long() / a.denominator_as_long()
